@@ -20,7 +20,7 @@ PROFILES = {
     'tickers': dict(log=4, await_time=4, interval=6, delay_iter=5, until_time=3, scope=1, do=3, set_flag=1, await_cond=1),
     'channels': dict(log=3, await_time=4, chan_put=8, chan_get=4, for_chan=5, chan_close=1, scope=1, do=4, cancel=3,
                      until_time=2, try_chan=2),
-    'flows': dict(log=4, await_time=4, collect=5, first=7, scope=1, do=2, until_time=2, try_=2, cancel=1),
+    'flows': dict(log=4, await_time=4, collect=5, first=7, scope=2, do=5, until_time=4, try_=2, cancel=4),
     'resources': dict(log=3, await_time=5, borrow=9, claim=3, increase=2, set_res=1, level=3, scope=1, do=5, cancel=3,
                       until_time=3, raise_=1, try_=1),
     'mixed': dict(log=5, await_time=6, await_cond=4, set_flag=3, set_tracked=3, scope=2, until_time=2,
@@ -36,6 +36,7 @@ class Gen:
         self.nchans = nchans
         self.res = [[False, 4], [True, 3]]
         self.nshare = 0
+        self.float_times = False
         self.rng = rng
         self.w = PROFILES[profile]
         self.profile = profile
@@ -57,6 +58,8 @@ class Gen:
     # ---- waitables
     def date(self):
         r = self.rng
+        if self.float_times:
+            return round(self.start + r.choice([-0.3, 0, 0.1, 0.2, 0.3, 0.7, 0.9, 1.1, 1.3, 2.3, 2.9]), 6)
         return self.start + r.choice([-2, -1, 0, 0, 1, 1, 2, 2, 3, 3, 4, 5, 6, 8])
 
     def w_time(self, for_until=False):
@@ -65,6 +68,8 @@ class Gen:
             return r.choice([['after', 'inf'], ['moment', 'inf'], ['delay', 'inf'], ['before', 'inf']])
         c = r.random()
         if c < 0.45:
+            if self.float_times:
+                return ['delay', r.choice([0, 0.1, 0.2, 0.3, 0.7, 1.1, 1.9])]
             return ['delay', r.choice([0, 1, 1, 2, 2, 3, 4, 5])]
         if c < 0.65:
             return ['after', self.date()]
@@ -221,6 +226,18 @@ class Gen:
                               ['task_cancelled'], ['user', 4]])
                 hs.append([p, [['log', self.k()]] + (self.block(1, self.sub(ctx)) if r.random() < 0.3 else [])])
             fin = [['log', self.k()]] if r.random() < 0.5 else []
+            if r.random() < 0.2:
+                # cleanup code may do anything that does not suspend: spawn, cancel, raise
+                c = r.random()
+                if c < 0.45 and (ctx['scopes'] or self.all_scopes):
+                    self.ntask += 1
+                    sn = r.choice(ctx['scopes'][-2:]) if ctx['scopes'] else r.choice(self.all_scopes)
+                    fin.append(['do', sn, self.ntask, ['now'], False, [['log', self.k()]]])
+                    self.tasks.append(self.ntask)
+                elif c < 0.7 and self.tasks:
+                    fin.append(['cancel', r.choice(self.tasks), r.randrange(1, 9)])
+                else:
+                    fin.append(['raise', r.choice([0, 2])])
             return [['try', body, hs, fin], ['log', self.k()]]
         if kind == 'try_stream':
             q = r.randrange(self.nqueues)
@@ -322,12 +339,20 @@ class Gen:
 
 
 def generate(rng, profile, **kw):
+    ft = kw.pop('float_times', False)
+    if ft:
+        start = kw.pop('start', rng.choice([0, 0.2, 0.3]))
+        g = Gen(rng, profile, start=start, **kw)
+        g.float_times = True
+        sc = g.scenario(till=None)
+        sc['float_times'] = True
+        return sc
     start = kw.pop('start', None)
     if start is None:
         start = rng.choice([0, 0, 0, 5, -3])
     till = None
     if rng.random() < kw.pop('till_p', 0.15):
-        till = start + rng.choice([0, 1, 2, 3, 4, 6])
+        till = start + rng.choice([-2, 0, 0, 1, 2, 3, 4, 6]) if rng.random() < 0.8 else 0
     g = Gen(rng, profile, start=start, **kw)
     return g.scenario(till=till)
 
